@@ -706,7 +706,7 @@ func atomicIDs(c *Ctx) {
 		if sig == nil || sig.Results().Len() != 1 || !isUint32(sig.Results().At(0).Type()) {
 			continue
 		}
-		okRet, nRet := true, 0
+		okRet, nRet, viaVar := true, 0, false
 		walkNoLit(f.Body, func(x ast.Node) bool {
 			rs, isR := x.(*ast.ReturnStmt)
 			if !isR || len(rs.Results) != 1 {
@@ -719,6 +719,11 @@ func atomicIDs(c *Ctx) {
 				if ast.Expr(a) == e {
 					isAdd = true
 				}
+			}
+			if !isAdd && addResultVar(info, f.Body, e, adds) {
+				// a local that only ever holds the result of one of this
+				// function's own adds (an add repeated to skip a reserved value)
+				isAdd, viaVar = true, true
 			}
 			if !isAdd {
 				okRet = false
@@ -785,6 +790,8 @@ func atomicIDs(c *Ctx) {
 		}
 		if okRet && nRet > 0 && len(adds) == 1 {
 			c.R.Hold("R-GUARD/atomic", p.Pos(f.Node()), f.Name, "returns its own increment", "every return yields the result of the single atomic add", true)
+		} else if okRet && nRet > 0 && viaVar && len(adds) > 1 {
+			c.R.Hold("R-GUARD/atomic", p.Pos(f.Node()), f.Name, "returns its own increment", fmt.Sprintf("every return yields a local that holds nothing but the result of one of this call's %d atomic adds", len(adds)), true)
 		} else {
 			c.R.Violate("R-GUARD/atomic", p.Pos(f.Node()), f.Name, "returns its own increment", "the id handed out is not (only) the result of this call's single atomic add: two concurrent callers can obtain the same id", nil)
 		}
@@ -792,6 +799,66 @@ func atomicIDs(c *Ctx) {
 	if nIds < 2 {
 		c.R.Undecided("R-GUARD/atomic", "", "instance-floor", "id counters not found")
 	}
+}
+
+// addResultVar: e names a local variable whose every definition in body
+// assigns it the result of one of the given add calls, and which is modified
+// in no other way.
+func addResultVar(info *types.Info, body ast.Node, e ast.Expr, adds []*ast.CallExpr) bool {
+	id, ok := ast.Unparen(e).(*ast.Ident)
+	if !ok {
+		return false
+	}
+	v, ok := info.Uses[id].(*types.Var)
+	if !ok || v.IsField() || v.Parent() == nil || v.Parent() == v.Pkg().Scope() {
+		return false
+	}
+	isV := func(x ast.Expr) bool {
+		i, ok := ast.Unparen(x).(*ast.Ident)
+		return ok && (info.Uses[i] == v || info.Defs[i] == v)
+	}
+	defs, good := 0, true
+	ast.Inspect(body, func(x ast.Node) bool {
+		switch s := x.(type) {
+		case *ast.AssignStmt:
+			for i, l := range s.Lhs {
+				if !isV(l) {
+					continue
+				}
+				defs++
+				if (s.Tok != token.ASSIGN && s.Tok != token.DEFINE) || len(s.Lhs) != len(s.Rhs) {
+					good = false
+					continue
+				}
+				r := ast.Unparen(s.Rhs[i])
+				isAdd := false
+				for _, a := range adds {
+					if ast.Expr(a) == r {
+						isAdd = true
+					}
+				}
+				if !isAdd {
+					good = false
+				}
+			}
+		case *ast.IncDecStmt:
+			if isV(s.X) {
+				good = false
+			}
+		case *ast.UnaryExpr:
+			if s.Op == token.AND && isV(s.X) {
+				good = false
+			}
+		case *ast.ValueSpec:
+			for _, nm := range s.Names {
+				if info.Defs[nm] == v {
+					good = false // declared with var: its zero value is a definition too
+				}
+			}
+		}
+		return true
+	})
+	return good && defs > 0
 }
 
 // ruleQuitReply — net/rpc shutdown handshake on the plugin side.
